@@ -34,6 +34,13 @@ ASSUMPTIONS = [
     "empty aggregate: 0 for count and sum, NO_DATA_VALUE for min/max/avg/median (a NaN returned by a cell operator is what "
     "Raster.computeAggregates turns into NO_DATA_VALUE; the operator sub-check applies the same one-line mapping)",
     "median of an even number of values = mean of the two middle values",
+    "summarize may be asked for any subset of the six aggregates of a feature in any order, for a second feature as well, and "
+    "Raster.computeAggregates() may be called again afterwards: every map is judged after every computation against the values "
+    "of the fixes in the cell",
+    "the tracks of a collection may have created their features in different orders, own an unrelated feature, or have removed "
+    "and re-created the summarised feature; each observation contributes its own value of the NAMED feature "
+    "(Track.getObsAnalyticalFeature); a requested feature that some track lacks is the documented AnalyticalFeatureError "
+    "(not generated)",
 ]
 
 
@@ -167,7 +174,40 @@ def _offset(code, extent, borders, centres):
     return (0.0, extent)[k % 2]
 
 
+# per-track feature layouts: creation order of the features of ONE track ('f' is the judged feature, 'g' a second feature
+# that is requested too when every track owns it, 'h' is never requested) and whether 'f' is removed and re-created at the end
+LAYOUTS = [{"create": ["f"]}, {"create": ["f", "g"]}, {"create": ["g", "f"]}, {"create": ["h", "f"]},
+           {"create": ["h", "g", "f"]}, {"create": ["f", "g"], "recreate": True}, {"create": ["f", "h"]},
+           {"create": ["g", "h", "f"]}, {"create": ["f", "h", "g"], "recreate": True}, {"create": ["g", "f", "h"]}]
+BASE_REQ = [["f", n] for n, _ in OPS] + [["uid", "co_count"]]
+G_REQ = [["g", "co_sum"], ["g", "co_median"], ["g", "co_min"]]
+
+
+def _perm(items, code):
+    """the code-th permutation of items (factorial number system; code 0 = identity): every order is reachable"""
+    items = list(items)
+    out = []
+    while items:
+        code, k = divmod(code, len(items))
+        out.append(items.pop(k))
+    return out
+
+
 def _decode_collection(t):
+    (cfg, pts, anchors, nanmode, cuts), (perm, drop, recompute, lay, gmaps) = t
+    case = _decode_collection0((cfg, pts, anchors, nanmode, cuts))
+    ntr = len(case["tracks"])
+    layouts = [LAYOUTS[lay[k] % len(LAYOUTS)] for k in range(ntr)]
+    req = [r for i, r in enumerate(BASE_REQ) if not (drop >> i) & 1 or r[0] == "uid"]
+    if gmaps and all("g" in l["create"] for l in layouts):
+        req = req + G_REQ[:gmaps]
+    case["req"] = _perm(req, perm)
+    case["recompute"] = recompute
+    case["layouts"] = layouts
+    return case
+
+
+def _decode_collection0(t):
     cfg, pts, anchors, nanmode, cuts = t
     rx, ry, m, W, H, ox, oy = _decode_cfg(cfg)
     n = len(pts)
@@ -189,23 +229,56 @@ def _decode_collection(t):
 def strat_collection():
     pts = st.lists(st.tuples(_COORD, _COORD, st.integers(0, 999)), min_size=2, max_size=12)
     anchors = st.tuples(*[st.integers(0, 11)] * 4)
-    return st.tuples(_CFG, pts, anchors, st.integers(0, 3), st.lists(st.integers(0, 10), max_size=3)).map(_decode_collection)
+    geo = st.tuples(_CFG, pts, anchors, st.integers(0, 3), st.lists(st.integers(0, 10), max_size=3))
+    # order of the requested (feature, aggregate) pairs (any permutation), requested subset, computeAggregates() repeated,
+    # feature layout of each track, maps of a second feature
+    var = st.tuples(st.integers(0, 3628799), st.sampled_from([0, 0, 0, 1, 2, 4, 8, 16, 32, 6, 24, 33, 30, 62]),
+                    st.sampled_from([0, 0, 0, 1, 1, 2]), st.tuples(*[st.integers(0, len(LAYOUTS) - 1)] * 4), st.sampled_from([0, 0, 1, 2, 3]))
+    return st.tuples(geo, var).map(_decode_collection)
+
+
+DEFAULT_REQ = [["f", n] for n, _ in OPS] + [["uid", "co_count"]]
+
+
+def _feature_values(pts, base):
+    """own values of the three features of one track (base = number of fixes in the tracks before it): 'f' from the case,
+    'g' and 'h' disjoint from the 'f' values (|f| <= 3) and from each other, so a value read from the wrong feature shows"""
+    n = len(pts)
+    return {"f": [p[2] for p in pts], "g": [1000 + 0.25 * (base + j) for j in range(n)],
+            "h": [-500.0 - (base + j) for j in range(n)]}
 
 
 def body_summarize(case):
     res = tuple(case["res"])
     m = case["margin"]
+    req = [list(r) for r in (case.get("req") or DEFAULT_REQ)]
+    layouts = case.get("layouts") or [{"create": ["f"]}] * len(case["tracks"])
+    recompute = int(case.get("recompute") or 0)
+    if len(layouts) != len(case["tracks"]) or not req or len(set(map(tuple, req))) != len(req) \
+            or any(r[1] not in OPF or r[0] not in ("f", "g", "uid") or (r[0] == "uid" and r[1] != "co_count") for r in req) \
+            or ["uid", "co_count"] not in req or any("f" not in l["create"] for l in layouts):
+        return {"undef": True}
+    if any(r[0] == "g" for r in req) and not all("g" in l["create"] for l in layouts):
+        return {"undef": True}                                   # documented AnalyticalFeatureError: a track lacks the feature
     trks = []
+    fixes = []                                                   # scatter order: track by track, fix by fix
     for k, pts in enumerate(case["tracks"]):
-        t = gen.make_track([(p[0], p[1]) for p in pts], features={"f": [p[2] for p in pts]})
+        t = gen.make_track([(p[0], p[1]) for p in pts])
+        vals = _feature_values(pts, len(fixes))
+        for name in layouts[k]["create"]:
+            t.createAnalyticalFeature(name, list(vals[name]))
+        if layouts[k].get("recreate"):                           # remove + re-create: 'f' moves behind the other features
+            t.removeAnalyticalFeature("f")
+            t.createAnalyticalFeature("f", list(vals["f"]))
         t.uid = k + 1
         trks.append(t)
-    fixes = [p for pts in case["tracks"] for p in pts]            # scatter order: track by track, fix by fix
+        for j, p in enumerate(pts):
+            fixes.append((p[0], p[1], {"f": vals["f"][j], "g": vals["g"][j]}))
     xs, ys = [p[0] for p in fixes], [p[1] for p in fixes]
     if not (max(xs) > min(xs) and max(ys) > min(ys)):
         return {"undef": True}                                   # degenerate bounding box: no grid is defined
 
-    raster = summarize(TrackCollection(trks), list(MAPS), list(AGGS), res, m)
+    raster = summarize(TrackCollection(trks), [r[0] for r in req], [OPF[r[1]] for r in req], res, m)
     _check_geometry(raster, res)
 
     groups = {}
@@ -217,36 +290,19 @@ def body_summarize(case):
         nby += by
         ncorner += bx and by
 
-    names = ["f#" + n for n, _ in OPS] + ["uid#co_count"]
-    grids = {}
-    for name in names:
-        g = raster.getAFMap(name).grid
-        if len(g) != raster.nrow or any(len(r) != raster.ncol for r in g):
-            raise Violation("grid-shape", "%s grid is not nrow x ncol = %d x %d" % (name, raster.nrow, raster.ncol))
-        grids[name] = g
-
-    # conservation
-    total = sum(grids["uid#co_count"][r][c] for r in range(raster.nrow) for c in range(raster.ncol))
-    if total != len(fixes):
-        raise Violation("conservation", "counts over all cells sum to %r, collection has %d observations" % (total, len(fixes)))
-    nn = sum(1 for p in fixes if not isnan(float(p[2])))
-    total = sum(grids["f#co_count"][r][c] for r in range(raster.nrow) for c in range(raster.ncol))
-    if total != nn:
-        raise Violation("conservation-feature", "feature counts sum to %r, collection has %d non-NaN values" % (total, nn))
-
-    # per-cell aggregates
-    for r in range(raster.nrow):
-        for c in range(raster.ncol):
-            vals = groups.get((r, c), [])
-            where = "cell row %d col %d" % (r, c)
-            got = grids["uid#co_count"][r][c]
-            if not same(got, len(vals)):
-                raise Violation("cell-count-wrong", "%s holds %r observations, %d fixes lie in its footprint" % (where, got, len(vals)))
-            for op, _ in OPS:
-                _check_value(op, vals, grids["f#" + op][r][c], where)
+    names = [r[0] + "#" + r[1] for r in req]
+    for rnd in range(1 + recompute):
+        if rnd:
+            raster.computeAggregates()                           # aggregates computed again from the same scattered values
+        try:
+            _judge_maps(raster, req, names, groups, fixes)
+        except Violation as v:
+            raise Violation(v.key, "%s [maps requested in the order %s; feature layouts %s; computeAggregates() run %d time(s)]" % (
+                v.msg, names, layouts, rnd + 1))
 
     ncells = raster.nrow * raster.ncol
-    multi = [v for v in groups.values() if len(v) >= 2]
+    multi = [[f["f"] for f in v] for v in groups.values() if len(v) >= 2]
+    allf = [[f["f"] for f in v] for v in groups.values()]
     cls = ["cells-1" if ncells == 1 else "cells-2..8" if ncells <= 8 else "cells-9+",
            "square" if res[0] == res[1] else "nonsquare",
            "margin-0" if m == 0 else "margin>0"]
@@ -260,9 +316,9 @@ def body_summarize(case):
         cls.append("fix-on-border")
     if ncorner:
         cls.append("fix-on-cell-corner")
-    if any(isnan(float(p[2])) for p in fixes):
+    if any(isnan(float(p[2]["f"])) for p in fixes):
         cls.append("has-nan")
-    if any(v and all(isnan(float(x)) for x in v) for v in groups.values()):
+    if any(v and all(isnan(float(x)) for x in v) for v in allf):
         cls.append("cell-all-nan")
     if any(isnan(float(v[0])) and any(not isnan(float(x)) for x in v) for v in multi):
         cls.append("cell-nan-first")
@@ -270,7 +326,69 @@ def body_summarize(case):
         cls.append("cell-even-median")
     if len(case["tracks"]) > 1:
         cls.append("multi-track")
+    # the new dimensions
+    cls.append("request-order-default" if req == DEFAULT_REQ else "request-order-permuted")
+    fops = [r[1] for r in req if r[0] == "f"]
+    if "co_median" in fops and fops.index("co_median") < len(fops) - 1:
+        cls.append("median-before-other-aggregate-of-the-feature")
+        if any(v and not any(isnan(float(x)) for x in v) for v in allf):
+            cls.append("median-first+cell-without-nan")
+    if len(fops) < len(OPS):
+        cls.append("subset-of-aggregates")
+    if any(r[0] == "g" for r in req):
+        cls.append("two-features-requested")
+    if recompute:
+        cls.append("aggregates-recomputed-%d" % recompute)
+    orders = set(tuple(_final_order(l)) for l in layouts)
+    if len(orders) > 1:
+        cls.append("tracks-with-different-feature-layouts")
+        pos = set(_final_order(l).index("f") for l in layouts)
+        if len(pos) > 1:
+            cls.append("judged-feature-at-different-positions")
+    if any(l.get("recreate") for l in layouts):
+        cls.append("feature-removed-and-recreated")
+    if any("h" in l["create"] for l in layouts):
+        cls.append("unrelated-feature-present")
     return {"nt": ncells > 1 and bool(multi), "cls": cls}
+
+
+def _final_order(layout):
+    order = list(layout["create"])
+    if layout.get("recreate"):
+        order.remove("f")
+        order.append("f")
+    return order
+
+
+def _judge_maps(raster, req, names, groups, fixes):
+    grids = {}
+    for name in names:
+        g = raster.getAFMap(name).grid
+        if len(g) != raster.nrow or any(len(r) != raster.ncol for r in g):
+            raise Violation("grid-shape", "%s grid is not nrow x ncol = %d x %d" % (name, raster.nrow, raster.ncol))
+        grids[name] = g
+
+    # conservation
+    total = sum(grids["uid#co_count"][r][c] for r in range(raster.nrow) for c in range(raster.ncol))
+    if total != len(fixes):
+        raise Violation("conservation", "counts over all cells sum to %r, collection has %d observations" % (total, len(fixes)))
+    if "f#co_count" in grids:
+        nn = sum(1 for p in fixes if not isnan(float(p[2]["f"])))
+        total = sum(grids["f#co_count"][r][c] for r in range(raster.nrow) for c in range(raster.ncol))
+        if total != nn:
+            raise Violation("conservation-feature", "feature counts sum to %r, collection has %d non-NaN values" % (total, nn))
+
+    # per-cell aggregates: each observation contributes ITS OWN value of the named feature
+    for r in range(raster.nrow):
+        for c in range(raster.ncol):
+            members = groups.get((r, c), [])
+            where = "cell row %d col %d" % (r, c)
+            got = grids["uid#co_count"][r][c]
+            if not same(got, len(members)):
+                raise Violation("cell-count-wrong", "%s holds %r observations, %d fixes lie in its footprint" % (where, got, len(members)))
+            for af, op in req:
+                if af != "uid":
+                    _check_value(op, [f[af] for f in members], grids[af + "#" + op][r][c], where + " feature '%s'" % af)
 
 
 # ----------------------------------------------------------------------------------------------
@@ -375,15 +493,19 @@ def strat_operators():
 RULE = ("summarize: Hypothesis collections of 1..4 tracks / 2..12 fixes whose bounding box is exactly [ox,ox+W]x[oy,oy+H] "
         "(W,H = whole or fractional numbers of cells), fix coordinates drawn from cell borders / cell centres / eighths of the "
         "extent / arbitrary floats, resolutions from {1,2.5,5,2,0.5,0.3,0.7,3.3}^2, margins {0,0.05,0.1,0.25,0.5}, feature values "
-        "quarter-lattice numbers or NaN; all six aggregates + uid count in one call. Non-trivial: grid has more than one cell and "
+        "quarter-lattice numbers or NaN; the requested maps are a subset of the six aggregates of 'f' + uid count (+ 0..3 aggregates "
+        "of a second feature 'g' when every track owns it) in ANY order (every permutation reachable; code 0 = the fixed order of "
+        "the first version), 0..2 further computeAggregates() calls each followed by the complete judgement, and a feature "
+        "layout per track out of 10 (creation orders of f / g / unrelated h, f removed and re-created). Non-trivial: grid has more than one cell and "
         "some cell receives two or more fixes. getcell: every half-cell lattice point of the data bounding box for a product of "
         "small grid configurations (enumerated) + generated queries; non-trivial: a query on a cell border. operators: every "
         "list of length <= 5 (quick) / 7 (thorough) over {NaN,-1,0.5,2} + generated lists up to 14 values; non-trivial: two or "
         "more values. Distinct = hash of the case.")
 
 SUBCHECKS = [
-    SubCheck("summarize", body_summarize, strategy=strat_collection, quick=24000, thorough=600000, qshards=8,
-             rule="collections through summarize(): footprint of every fix, conservation, six aggregates per cell"),
+    SubCheck("summarize", body_summarize, strategy=strat_collection, quick=20000, thorough=600000, qshards=10,
+             rule="collections through summarize(): footprint of every fix, conservation, requested aggregates per cell in any "
+                  "request order, per-track feature layouts, aggregates recomputed"),
     SubCheck("getcell", body_getcell, strategy=strat_getcell, enum=enum_getcell, quick=8000, thorough=200000, qshards=4,
              rule="Raster.getCell footprint on half-cell lattices (enumerated) and generated queries"),
     SubCheck("operators", body_operators, strategy=strat_operators, enum=enum_operators, quick=8000, thorough=200000,
